@@ -335,7 +335,12 @@ const prelude = `(set-option :produce-models true)
 
 // script renders the full incremental script: each obligation is checked
 // under push/pop and then assumed.
-func (vc *VC) script(relaxed bool) string {
+func (vc *VC) script(relaxed bool) string { return vc.scriptShard(relaxed, 0, 1) }
+
+// scriptShard renders the incremental script in which only every n-th
+// obligation (those with index %% n == k) is checked; all are assumed.
+func (vc *VC) scriptShard(relaxed bool, k, n int) string {
+	obIndex := 0
 	var b strings.Builder
 	b.WriteString(prelude)
 	for _, d := range vc.decls {
@@ -352,7 +357,10 @@ func (vc *VC) script(relaxed bool) string {
 			continue
 		}
 		ob := it.Ob
-		fmt.Fprintf(&b, "(push 1)\n(assert %s)\n(echo \"@OB %s\")\n(check-sat)\n(pop 1)\n", and(ob.Reach, not(ob.Goal)), ob.Name)
+		if obIndex%n == k {
+			fmt.Fprintf(&b, "(push 1)\n(assert %s)\n(echo \"@OB %s\")\n(check-sat)\n(pop 1)\n", and(ob.Reach, not(ob.Goal)), ob.Name)
+		}
+		obIndex++
 		fmt.Fprintf(&b, "(assert %s)\n", imp(ob.Reach, ob.Goal))
 	}
 	b.WriteString("(echo \"@VACUITY\")\n(check-sat)\n")
